@@ -94,7 +94,9 @@ func ruleR02_1(w *World, r *Report) {
 	u := w.Client()
 	r.Rule("R02.1", "Timestamp.Compare and OperationID.Compare return the sign of the first non-equal field in the order Era, Lamport, CUID (receiver minus argument) on every path", 2)
 	order := []string{"Era", "Lamport", "CUID"}
+	defer func() { substStack = nil }()
 	for _, recvT := range []string{"Timestamp", "OperationID"} {
+		substStack = nil
 		fn := u.Fn(pModel, recvT, "Compare")
 		cons := recvT + ".Compare"
 		if fn == nil || len(fn.Params) != 2 {
@@ -105,6 +107,23 @@ func ruleR02_1(w *World, r *Report) {
 		covered := map[string]bool{}
 		bad := false
 		nret := 0
+		// a Compare that only forwards its fields to a helper is judged by the helper's body, read
+		// with the helper's parameters replaced by the forwarded expressions
+		if len(fn.Blocks) == 1 {
+			if ret, ok := fn.Blocks[0].Instrs[len(fn.Blocks[0].Instrs)-1].(*ssa.Return); ok && len(ret.Results) == 1 {
+				if call, ok := ret.Results[0].(*ssa.Call); ok && inlinable(call.Call.StaticCallee()) {
+					h := call.Call.StaticCallee()
+					env := map[*ssa.Parameter]ssa.Value{}
+					for i, p := range h.Params {
+						if i < len(call.Call.Args) {
+							env[p] = call.Call.Args[i]
+						}
+					}
+					substStack = []map[*ssa.Parameter]ssa.Value{env}
+					fn = h
+				}
+			}
+		}
 		forEachInstr(fn, func(in ssa.Instruction) {
 			ret, ok := in.(*ssa.Return)
 			if !ok || len(ret.Results) != 1 {
